@@ -213,7 +213,8 @@ impl BroCatli {
             last_bytes = [17u8, log_window_size | 64 | 128];
             last_bytes_len = 2;
         } else if log_window_size == 16 {
-            last_bytes = [1 | 2 | 4, 0];
+            // WBITS for a 64k window is the single bit 0, followed by ISLAST and ISLASTEMPTY
+            last_bytes = [2 | 4, 0];
             last_bytes_len = 1;
         } else if log_window_size > 17 {
             last_bytes = [(3 + (log_window_size - 18) * 2) | (16 | 32), 0];
